@@ -374,12 +374,49 @@ pub fn child(kv: &BTreeMap<String, String>) -> ! {
     let count: usize = get("count").parse().unwrap();
     let limit: u64 = get("limit").parse().unwrap();
     let file = get("file");
+    let transient = get("transient") == "1";
+    let mut hard: libc::rlim_t = limit as libc::rlim_t;
     unsafe {
         libc::signal(libc::SIGXFSZ, libc::SIG_IGN);
-        let lim = libc::rlimit { rlim_cur: limit as libc::rlim_t, rlim_max: limit as libc::rlim_t };
+        if transient {
+            // Only the soft limit is lowered, so that it can be lifted again half-way through the pushes.
+            let mut cur = libc::rlimit { rlim_cur: 0, rlim_max: 0 };
+            libc::getrlimit(libc::RLIMIT_FSIZE, &mut cur);
+            hard = cur.rlim_max;
+        }
+        let lim = libc::rlimit { rlim_cur: limit as libc::rlim_t, rlim_max: hard };
         if libc::setrlimit(libc::RLIMIT_FSIZE, &lim) != 0 { println!("OUTCOME harness_error setrlimit"); std::process::exit(3); }
     }
     crate::util::install_panic_hook();
+    if transient {
+        // The file-size limit bites during the first half of the pushes and is gone for the second half. A push that panics
+        // has reported the failure; if none does, close() must either fail or leave the complete file.
+        let lift = || unsafe { let lim = libc::rlimit { rlim_cur: hard, rlim_max: hard }; libc::setrlimit(libc::RLIMIT_FSIZE, &lim); };
+        let outcome: String = if kind == "int" {
+            match IntVectorWriter::with_buf_len(&file, width, buf) {
+                Err(_) => "ctor_err".to_string(),
+                Ok(mut w) => {
+                    let first = guard(|| { for i in 0..count / 2 { w.push(pattern(i)); } });
+                    lift();
+                    let second = guard(|| { for i in count / 2..count { w.push(pattern(i)); } });
+                    if first.is_err() || second.is_err() { std::mem::forget(w); "push_panic".to_string() } else { match w.close() { Ok(()) => "close_ok".to_string(), Err(_) => { std::mem::forget(w); "close_err".to_string() } } }
+                },
+            }
+        } else {
+            let mut header: Vec<u64> = Vec::new();
+            match RawVectorWriter::with_buf_len(&file, &mut header, buf) {
+                Err(_) => "ctor_err".to_string(),
+                Ok(mut w) => {
+                    let first = guard(|| { for i in 0..count / 2 { unsafe { w.push_int(pattern(i), width); } } });
+                    lift();
+                    let second = guard(|| { for i in count / 2..count { unsafe { w.push_int(pattern(i), width); } } });
+                    if first.is_err() || second.is_err() { std::mem::forget(w); "push_panic".to_string() } else { match w.close() { Ok(()) => "close_ok".to_string(), Err(_) => { std::mem::forget(w); "close_err".to_string() } } }
+                },
+            }
+        };
+        println!("OUTCOME {}", outcome);
+        std::process::exit(0);
+    }
     let outcome: String = if kind == "int" {
         match IntVectorWriter::with_buf_len(&file, width, buf) {
             Err(_) => "ctor_err".to_string(),
@@ -477,6 +514,31 @@ fn limited_writers(ctx: &mut Ctx) {
                 },
             }
         }
+        // A limit that bites only during the first half of the pushes (then the disk has room again).
+        for t in 0..12usize {
+            let limit = 8 + (size * t) / 14;
+            points += 1;
+            ctx.checks += 1;
+            let _ = std::fs::remove_file(&file);
+            let out = std::process::Command::new(&exe)
+                .args(["c14child", &format!("kind={}", kind), &format!("width={}", width), &format!("buf={}", buf), &format!("count={}", count), &format!("limit={}", limit), &format!("file={}", file), "transient=1"])
+                .output();
+            match out {
+                Err(e) => { ctx.inconclusive(format!("could not spawn the writer child: {}", e)); break; },
+                Ok(o) => {
+                    let text = String::from_utf8_lossy(&o.stdout).to_string();
+                    let outcome = text.lines().find(|l| l.starts_with("OUTCOME ")).map(|l| l[8..].to_string()).unwrap_or_else(|| format!("no_outcome(status {:?})", o.status.code()));
+                    *outcomes.entry(format!("transient.{}", outcome)).or_insert(0) += 1;
+                    let on_disk = std::fs::read(&file).unwrap_or_default();
+                    match outcome.as_str() {
+                        "close_ok" => if on_disk != expected { ctx.violation(&format!("writer.transient_limit.reported_success.{}", kind), format!("{} writer width {} buf {} pushes {}: RLIMIT_FSIZE {} during the first half of the pushes, lifted for the second half; no push panicked and close() returned Ok, but the file has {} of {} bytes{}", kind, width, buf, count, limit, on_disk.len(), size, if on_disk.len() == size { " (content differs)" } else { "" })); },
+                        "ctor_err" | "push_panic" | "close_err" => {},
+                        _ => ctx.inconclusive(format!("{} writer under a transient limit: child gave {}", kind, outcome)),
+                    }
+                },
+            }
+        }
+        let _ = std::fs::remove_file(&file);
         ctx.case(hash64(&[5, ci as u64, size as u64]), true);
         ctx.sample(|| format!("writers: {} writer width={} buf={} pushes={} complete file {} bytes: one child process per RLIMIT_FSIZE in 0..={} step {}", kind, width, buf, count, size, size + 8, step));
     }
